@@ -1,4 +1,4 @@
-import Texel.Model.Snap
+import Texel.Model.SnapF
 import Texel.Model.Index
 import Texel.Model.Small
 import Texel.Model.Pipe
@@ -17,7 +17,7 @@ def showRings (rs : Array (Array P)) : String := "[" ++ "|".intercalate (rs.toLi
 def showQuads (qs : List Quad) : String := " ".intercalate (qs.map fun q => s!"{q.x},{q.y}")
 
 /-- `snap`/`chains` share their arguments: depth minX minY res keep reverse ignoreOutside nlev levels... nrings (n x y ...)* -/
-def snapOp (rest : List String) (chainsOnly : Bool) : String :=
+def snapOp (rest : List String) (mode : Nat) : String :=
   let xs := parseInts rest
   if xs.size < 9 then "bad-op" else
   let g : Grid := ⟨xs[1]!, xs[2]!, xs[3]!, xs[0]!.toNat⟩
@@ -33,17 +33,23 @@ def snapOp (rest : List String) (chainsOnly : Bool) : String :=
       rings := rings.push (toPts (xs.extract (pos + 1) (pos + 1 + 2 * n)))
       pos := pos + 1 + 2 * n
     return (rings, pos)
-  if chainsOnly then
+  if mode == 1 then
     match routedChains g rings levels with
     | .ok res => "ok " ++ " ".intercalate (res.map fun (l, chains) => s!"L{l}:[" ++ "|".intercalate (chains.toList.map showRing) ++ "]")
     | .error e => "panic " ++ e
   else
-  match snapPolygon g rings levels cfg with
-  | .ok res =>
-    let sorted := res.toArray.qsort (fun a b => a.1 < b.1)
-    "ok " ++ " ".intercalate (sorted.toList.map fun (l, polys) =>
-      s!"L{l}:[" ++ ";".intercalate (polys.toList.map fun pg => "|".intercalate (pg.toList.map showRing)) ++ "]")
-  | .error e => "panic " ++ e
+  let render (r : Except String (List (Nat × Array (Array (Array P))))) : String :=
+    match r with
+    | .ok res =>
+      let sorted := res.toArray.qsort (fun a b => a.1 < b.1)
+      "ok " ++ " ".intercalate (sorted.toList.map fun (l, polys) =>
+        s!"L{l}:[" ++ ";".intercalate (polys.toList.map fun pg => "|".intercalate (pg.toList.map showRing)) ++ "]")
+    | .error e => "panic " ++ e
+  let ringsL := rings.toList.map Array.toList
+  match mode with
+  | 0 => render (snapPolygonF g ringsL levels cfg)          -- the functional model (the one the theorems are about)
+  | 2 => render (snapPolygon g rings levels cfg)            -- the line-by-line reference transcription
+  | _ => if render (snapPolygonF g ringsL levels cfg) == render (snapPolygon g rings levels cfg) then "same" else "differ"
 
 def handle (line : String) : String :=
   match line.trimAscii.toString.splitOn " " with
@@ -100,8 +106,10 @@ def handle (line : String) : String :=
     match cleanupNewRing ring (o == "1") (fun p => flags.contains p) with
     | .ok s => s!"ok O{showRings s.outers} I{showRings s.inners} PL{showRings s.pointsAndLines}"
     | .error e => "panic " ++ e
-  | "snap" :: rest => snapOp rest false
-  | "chains" :: rest => snapOp rest true
+  | "snap" :: rest => snapOp rest 0
+  | "chains" :: rest => snapOp rest 1
+  | "snapref" :: rest => snapOp rest 2
+  | "snapboth" :: rest => snapOp rest 3
   | ["page", ps, ns] =>
     match ps.toNat?, ns.toNat? with
     | some p, some n =>
